@@ -22,6 +22,17 @@ def sh(cmd, cwd=None, env=None, timeout=None):
     e = dict(os.environ)
     e.update(env or {})
     e['CARGO_NET_OFFLINE'] = 'true'
+    # Checks may run concurrently and share the build caches. Two scratch copies of the crate compile to the SAME artifact names in a
+    # shared target directory, so a build of one check can replace the test binary / goto binary another check is about to run
+    # (seen: "running 0 tests"). Every cargo invocation on a shared target directory holds an exclusive lock on it from build to run;
+    # the timeout of the command starts once the lock is held.
+    lock = None
+    td = (env or {}).get('CARGO_TARGET_DIR')
+    if td:
+        import fcntl
+        os.makedirs(td, exist_ok=True)
+        lock = open(td.rstrip('/') + '.lock', 'w')
+        fcntl.flock(lock, fcntl.LOCK_EX)
     try:
         r = subprocess.run(cmd, cwd=cwd, env=e, stdout=subprocess.PIPE, stderr=subprocess.STDOUT, text=True,
                            timeout=timeout, shell=isinstance(cmd, str))
@@ -31,6 +42,9 @@ def sh(cmd, cwd=None, env=None, timeout=None):
         if isinstance(out, bytes):
             out = out.decode(errors='replace')
         return 124, out + "\n[timeout after %ss]" % timeout
+    finally:
+        if lock is not None:
+            lock.close()
 
 
 def make_scratch(work):
